@@ -598,6 +598,10 @@ class RefBreaker:
             n += 1
             if n >= self.T:
                 out.add((True, now, min(n, self.T)))
+                if op:
+                    # a failure reported while the breaker is open (a call that was already in flight when it
+                    # tripped): the statement does not say whether the cool-down starts again
+                    out.add((True, trip, min(n, self.T)))
             else:
                 out.add((op, trip, n))
         self.states = out
@@ -780,7 +784,82 @@ class BreakerHarness:
                 violation(self.case, "%s: a call that bypasses the gateway raised %r from the fail-safe" % (where, escaped))
             self.ref.neutral()
 
+    # ---- calls that overlap in time: one fail-safe is shared by every hooked request of the process, and a
+    # threaded application has several of them in flight. `with fs:` is __enter__ ... __exit__, so a call is split
+    # into its two halves and other steps happen in between.
+    def begin(self, allowed):
+        self.case["steps"].append(["begin", bool(allowed)])
+        where = "step #%d begin" % len(self.case["steps"])
+        try:
+            with SUT:
+                self.fs.__enter__()
+                ok = self.fs.state_ok
+        except Exception as e:  # noqa: BLE001
+            violation(self.case, "%s: entering the fail-safe raised %r" % (where, e))
+        if not isinstance(ok, bool):
+            violation(self.case, "%s: state_ok returned %r" % (where, ok))
+        self._check_closed(where, ok)
+        if not hasattr(self, "pending"):
+            self.pending = []
+        self.pending.append({"via": bool(ok and allowed), "at": len(self.case["steps"])})
+        self.n_calls += 1
+
+    def end(self, which, outcome, code, exc_kind):
+        if not getattr(self, "pending", None):
+            return
+        p = self.pending.pop(which % len(self.pending))
+        self.case["steps"].append(["end", which, outcome, code, exc_kind])
+        where = "step #%d end(%s) of the call begun at step #%d" % (len(self.case["steps"]), outcome, p["at"])
+        fs = self.fs
+        self.n_overlap = getattr(self, "n_overlap", 0) + 1
+        if not p["via"]:
+            with SUT:
+                r = fs.__exit__(None, None, None)
+            self.n_bypass += 1
+            self.ref.neutral()
+            return
+        self.n_gateway += 1
+        exc = None
+        try:
+            with SUT:
+                if outcome == "ok":
+                    fs.validate_headers({"content-type": "text/plain"})
+                elif outcome == "hdr":
+                    fs.validate_headers({"content-type": "text/plain", "x-lunar-error": code})
+                elif outcome == "conn":
+                    k = len(self.case["steps"])
+                    variants = RAISED_AS[self.hook_exc[k % len(self.hook_exc)]]
+                    raise variants[(k // len(self.hook_exc)) % len(variants)]("connection to the gateway failed")
+                else:
+                    raise APP_EXC[exc_kind]("application failure")
+        except BaseException as e:  # noqa: BLE001
+            if isinstance(e, (PropertyViolation, Infra, NetworkAccess)):
+                raise
+            exc = e
+        with SUT:
+            swallowed = fs.__exit__(type(exc), exc, exc.__traceback__) if exc is not None else fs.__exit__(None, None, None)
+        if outcome == "ok":
+            if exc is not None:
+                violation(self.case, "%s: successful gateway call raised %r" % (where, exc))
+            self.ref.success()
+        elif outcome in ("hdr", "conn"):
+            if exc is None:
+                violation(self.case, "%s: a response with x-lunar-error: %s was not reported as a gateway-side failure" % (where, code))
+            if not swallowed:
+                violation(self.case, "%s: gateway-side failure was raised into the application instead of falling back to a direct call: %r" % (where, exc))
+            self.n_swallowed += 1
+            self.ref.gateway_failure(CLOCK.now)
+        else:
+            self.n_app += 1
+            if swallowed:
+                violation(self.case, "%s: application exception %s was swallowed by the fail-safe" % (where, type(exc).__name__))
+            self.ref.neutral()
+
     def finish(self, rec):
+        while getattr(self, "pending", None):
+            self.end(0, "ok", "1", "value")
+        if getattr(self, "n_overlap", 0):
+            rec.cls("calls that overlap other steps (begin ... end)", self.n_overlap)
         rec.case()
         rec.cls("machines")
         rec.cls("steps", len(self.case["steps"]))
@@ -814,6 +893,10 @@ def replay_breaker(case, cls=BreakerHarness):
             h.peek()
         elif s[0] == "call":
             h.call(*s[1:])
+        elif s[0] == "begin":
+            h.begin(*s[1:])
+        elif s[0] == "end":
+            h.end(*s[1:])
         else:
             raise Infra("unknown step %r in replay" % (s,))
     h.finish(REC)
@@ -1430,6 +1513,9 @@ def test_breaker_machine(checks, seed_value):
     ])
     fail_args = packed([("outcome", ["conn", "hdr"]), ("wait", WAIT_OPTS), ("dur", [0.0, 0.0, 0.25]), ("code", list(ERR_CODES))])
     adv_args = packed(ADV_FIELDS)
+    end_args = packed([("which", [0, 0, 1, 2]), ("outcome", ["ok", "ok", "ok", "hdr", "conn", "app"]), ("code", list(ERR_CODES)), ("exc_kind", sorted(APP_EXC))])
+    outage_args = packed([("fail", ["conn", "hdr"]), ("extra", [0, 0, 1]), ("end_after_expiry", [False, False, True]), ("off", [0.125, 0.25, 1.0, 3.0]),
+                          ("outcome", ["ok", "ok", "ok", "conn"]), ("after", [1, 1, 2]), ("code", list(ERR_CODES))])
 
     class BreakerMachine(RuleBasedStateMachine):
         def __init__(self):
@@ -1458,6 +1544,31 @@ def test_breaker_machine(checks, seed_value):
 
         @rule()
         def peek(self):
+            self.h.peek()
+
+        @rule(allowed=st.sampled_from([True, True, True, False]))
+        def begin_call(self, allowed):
+            if len(getattr(self.h, "pending", None) or []) < 3:
+                self.h.begin(allowed)
+
+        @rule(a=end_args)
+        def end_call(self, a):
+            self.h.end(a["which"], a["outcome"], a["code"], a["exc_kind"])
+
+        @rule(a=outage_args)
+        def slow_call_across_an_outage(self, a):
+            # a call is in flight through the gateway while other calls fail until the breaker trips; it ends
+            # (mostly well) during or after the cool-down; then the gateway fails again once or twice
+            self.h.begin(True)
+            for _ in range(self.h.ref.T + a["extra"]):
+                self.h.call(a["fail"], True, 0.0, a["code"], "value")
+            if a["end_after_expiry"]:
+                self.h.advance(self.h.ref.C + a["off"])
+            self.h.end(-1, a["outcome"], a["code"], "value")
+            if not a["end_after_expiry"]:
+                self.h.advance(self.h.ref.C + a["off"])
+            for _ in range(a["after"]):
+                self.h.call(a["fail"], True, 0.0, a["code"], "value")
             self.h.peek()
 
         def teardown(self):
